@@ -100,3 +100,46 @@ class RoleEval:
             # range tuples of the cropper: x_range[1] - x_range[0] handled by BinOp; single element -> atom
             return self.atom('ELT[%s]' % txt)
         return None
+
+
+def expand_variants(f, expr, reachable=None, depth=0, cap=8):
+    """the expressions ``expr`` can stand for: every local name in it that is defined by plain assignments is replaced
+    by each of its (reachable) definitions - one variant per combination, so a value chosen in the arms of an `if`
+    yields one formula per arm.  Parameters, loop variables and augmented locals are left alone."""
+    import copy
+    import itertools
+    if depth > 3:
+        return [expr]
+    names = []
+    for x in ast.walk(expr):
+        if isinstance(x, ast.Name) and isinstance(x.ctx, ast.Load) and x.id not in f.params and x.id not in names:
+            defs = [n for n in ast.walk(f.node) if isinstance(n, ast.Assign) and len(n.targets) == 1 and
+                    isinstance(n.targets[0], ast.Name) and n.targets[0].id == x.id and (reachable is None or reachable(n))]
+            others = [n for n in ast.walk(f.node) if isinstance(n, (ast.AugAssign, ast.For, ast.comprehension)) and
+                      any(isinstance(y, ast.Name) and y.id == x.id for y in ast.walk(n.target))]
+            multi = [n for n in ast.walk(f.node) if isinstance(n, ast.Assign) and any(
+                isinstance(t, ast.Tuple) and any(isinstance(y, ast.Name) and y.id == x.id for y in t.elts) for t in n.targets)]
+            if defs and not others and not multi and not any(
+                    isinstance(y, ast.Name) and y.id == x.id for d in defs for y in ast.walk(d.value)):
+                names.append(x.id)
+                names_defs = getattr(expand_variants, '_tmp', None)
+    if not names:
+        return [expr]
+    choices = []
+    for nm in names:
+        defs = [n.value for n in ast.walk(f.node) if isinstance(n, ast.Assign) and len(n.targets) == 1 and
+                isinstance(n.targets[0], ast.Name) and n.targets[0].id == nm and (reachable is None or reachable(n))]
+        choices.append(defs)
+    out = []
+    for combo in itertools.islice(itertools.product(*choices), cap):
+        m = dict(zip(names, combo))
+
+        class S(ast.NodeTransformer):
+            def visit_Name(self, n):
+                if isinstance(n.ctx, ast.Load) and n.id in m:
+                    return copy.deepcopy(m[n.id])
+                return n
+        e2 = S().visit(copy.deepcopy(expr))
+        ast.fix_missing_locations(e2)
+        out.extend(expand_variants(f, e2, reachable, depth + 1, cap))
+    return out[:cap * 2]
